@@ -130,7 +130,8 @@ func vStubReqCloseBodyStream(r *fasthttp.Request) error {
 
 //verif:replace (*github.com/valyala/fasthttp.Response).AppendBody
 func vStubRespAppendBody(r *fasthttp.Response, p []byte) {
-	vGhostOf(r).contentLength += len(p)
+	g := vGhostOf(r)
+	g.body = append(g.body, p...)
 }
 
 // ---- response side ----
@@ -237,3 +238,57 @@ func vStubRqhPeek(h *fasthttp.RequestHeader, key string) []byte {
 	}
 	return nil
 }
+
+// ---- request side, as the client uses it ----
+
+//verif:replace (*github.com/valyala/fasthttp.RequestHeader).SetMethod
+func vStubRqhSetMethod(h *fasthttp.RequestHeader, m string) { vGhostOf(h).method = []byte(m) }
+
+//verif:replace (*github.com/valyala/fasthttp.RequestHeader).Set
+func vStubRqhSet(h *fasthttp.RequestHeader, k, v string) {
+	g := vGhostOf(h)
+	g.keys, g.vals = append(g.keys, []byte(k)), append(g.vals, []byte(v))
+}
+
+//verif:replace (*github.com/valyala/fasthttp.RequestHeader).ContentLength
+func vStubRqhContentLength(h *fasthttp.RequestHeader) int { return vGhostOf(h).contentLength }
+
+//verif:replace (*github.com/valyala/fasthttp.RequestHeader).SetContentLength
+func vStubRqhSetContentLength(h *fasthttp.RequestHeader, n int) { vGhostOf(h).contentLength = n }
+
+//verif:replace (*github.com/valyala/fasthttp.RequestHeader).All
+func vStubRqhAll(h *fasthttp.RequestHeader) iter.Seq2[[]byte, []byte] {
+	g := vGhostOf(h)
+	return func(yield func([]byte, []byte) bool) {
+		for i := range g.keys {
+			if !yield(g.keys[i], g.vals[i]) {
+				return
+			}
+		}
+	}
+}
+
+//verif:replace (*github.com/valyala/fasthttp.URI).SetHost
+func vStubURISetHost(u *fasthttp.URI, h string) { vGhostOf(u).host = []byte(h) }
+
+//verif:replace (*github.com/valyala/fasthttp.URI).Host
+func vStubURIHost(u *fasthttp.URI) []byte { return vGhostOf(u).host }
+
+//verif:replace (*github.com/valyala/fasthttp.URI).SetPath
+func vStubURISetPath(u *fasthttp.URI, p string) { vGhostOf(u).uri = []byte(p) }
+
+//verif:replace (*github.com/valyala/fasthttp.URI).RequestURI
+func vStubURIRequestURI(u *fasthttp.URI) []byte { return vGhostOf(u).uri }
+
+//verif:replace (*github.com/valyala/fasthttp.URI).SetScheme
+func vStubURISetScheme(u *fasthttp.URI, s string) { vGhostOf(u).scheme = []byte(s) }
+
+//verif:replace (*github.com/valyala/fasthttp.Request).SetBody
+func vStubReqSetBody(r *fasthttp.Request, b []byte) { vGhostOf(r).body = vCopy(b) }
+
+//verif:replace (*github.com/valyala/fasthttp.Request).IsBodyStream
+func vStubReqIsBodyStream(r *fasthttp.Request) bool { return vGhostOf(r).bodyStream != nil }
+
+//verif:replace (*github.com/valyala/fasthttp.Request).BodyStream
+func vStubReqBodyStream(r *fasthttp.Request) io.Reader { return vGhostOf(r).bodyStream }
+
